@@ -343,8 +343,7 @@ class StmtMixin:
             self.havoc_field(sort, field)
         if spec is not None and spec.ghost_havoc is not None:
             spec.ghost_havoc(self)
-        if self.frames[-1].get("heap_loops", True) and self.body_may_write_heap(body):
-            self.world.havoc_heap_for_loop(self, body)
+        self.world.havoc_heap_for_loop(self, body)
         return pre
 
     def set_existing(self, env, name, v):
@@ -713,7 +712,7 @@ class StmtMixin:
             return self.ev(node.body, env)
         fid = f"{fn.module.name if fn.module else '?'}:{getattr(fn, 'qual', fn.name)}"
         cc = self.world.contract_for(fn)
-        self.frames.append({"fid": fid, "loops": S.loops_of(node), "loop_specs": self.world.loop_specs_for(fn), "fn_node": node, "local_types": (cc.local_types if cc else {}), "unroll_while": (cc.unroll_while if cc else 0)})
+        self.frames.append({"module": fn.module, "fid": fid, "loops": S.loops_of(node), "loop_specs": self.world.loop_specs_for(fn), "fn_node": node, "local_types": (cc.local_types if cc else {}), "unroll_while": (cc.unroll_while if cc else 0)})
         try:
             self.ex_block(node.body, env)
         except ReturnSig as r:
